@@ -1,5 +1,177 @@
-From Coq Require Import List ZArith.
+(* C14 — no input from a remote peer can crash or corrupt a peer.
+   Statements only; every proof is `exact <lemma from Proof/C14*.v>`.
+
+   Level: DECODED handshakes and messages with ALL field values (any Z for every int32 / uint64 field, any
+   combination of present and missing bodies, any bitfield bit count and words, any frame size), delivered to
+   agent and origin torrents, from any peers, in any order and number (histories = lists of events).
+   Byte-level protobuf decoding is outside the model (its result is the model's input).
+   The code modelled is the code with fixes/C14_*.patch ([gfixed]); the code without each guard is refuted below. *)
+From Coq Require Import List ZArith Bool.
 From K.Model Require Import C14.
-From K.Proof Require C14.
-Theorem C14_placeholder : True.
-Proof. exact Proof.C14.placeholder. Qed.
+From K.Proof Require C14 C14_main C14_frame C14_refute.
+Import ListNotations.
+Local Open Scope Z_scope.
+
+(* ---- clause "makes an agent or origin panic": no history of handshakes, messages and hang-ups panics.
+   [inv]: piece table and counters have NumPieces entries, every connected peer's bitfield is clean (what addPeer
+   admits); [wf_event]: a decoded bitfield lies inside the frame it arrived in. *)
+Theorem C14_total : forall t s evs,
+  wf_torrent t = true -> inv t s = true -> forallb wf_event evs = true ->
+  run_events gfixed t s evs <> None.
+Proof. exact Proof.C14_main.total. Qed.
+Print Assumptions C14_total.
+
+(* the invariant is inductive, and holds initially: the theorems speak about every reachable state *)
+Theorem C14_inv_preserved : forall t s evs s' es,
+  wf_torrent t = true -> inv t s = true -> forallb wf_event evs = true ->
+  run_events gfixed t s evs = Some (s', es) -> inv t s' = true.
+Proof. exact Proof.C14_main.inv_preserved. Qed.
+Print Assumptions C14_inv_preserved.
+
+Theorem C14_inv_initial : forall t have,
+  wf_torrent t = true -> zlen have = t_n t -> inv t (init t have) = true.
+Proof. exact Proof.C14_main.init_inv_b. Qed.
+Print Assumptions C14_inv_initial.
+
+(* ---- clause "allocate without bound": every allocation whose size derives from the wire is at most
+   max(maxMessageSize, piece length); maxMessageSize is read from conn.go on every run *)
+Theorem C14_alloc_bounded : forall t s evs s' es n,
+  wf_torrent t = true -> inv t s = true -> forallb wf_event evs = true ->
+  run_events gfixed t s evs = Some (s', es) -> In (EAlloc n) es -> n <= Z.max max_msg (t_p t).
+Proof. exact Proof.C14_main.alloc_bounded. Qed.
+Print Assumptions C14_alloc_bounded.
+
+Example C14_max_message_size : max_msg = 32768.
+Proof. vm_compute. reflexivity. Qed.
+
+(* ---- clause "read or write outside the blob" *)
+Theorem C14_in_bounds : forall t s evs s' es i,
+  wf_torrent t = true -> inv t s = true -> forallb wf_event evs = true ->
+  run_events gfixed t s evs = Some (s', es) -> In (EPiece i) es \/ In (ECounter i) es \/ In (EBit i) es ->
+  0 <= i < t_n t.
+Proof. exact Proof.C14_main.index_in_bounds. Qed.
+Print Assumptions C14_in_bounds.
+
+Theorem C14_file_in_bounds : forall t s evs s' es off len,
+  wf_torrent t = true -> inv t s = true -> forallb wf_event evs = true ->
+  run_events gfixed t s evs = Some (s', es) -> In (EFileRd off len) es \/ In (EFileWr off len) es ->
+  0 <= off /\ 0 <= len /\ off + len <= t_len t.
+Proof. exact Proof.C14_main.file_in_bounds. Qed.
+Print Assumptions C14_file_in_bounds.
+
+(* what the peer sends in response names pieces of the torrent, with their true lengths *)
+Theorem C14_sends_in_bounds : forall t s evs s' es q r,
+  wf_torrent t = true -> inv t s = true -> forallb wf_event evs = true ->
+  run_events gfixed t s evs = Some (s', es) -> In (ESend q r) es -> reply_ok t r = true.
+Proof. exact Proof.C14_main.sends_in_bounds. Qed.
+Print Assumptions C14_sends_in_bounds.
+
+(* ---- clause "such input is rejected or ends that connection, and the peer keeps serving its other
+   connections": a message of q leaves every other connection and its bitfield alone; another peer is dropped only
+   in the step in which the torrent completes, and only if that peer is complete as well (dispatcher.go complete()) *)
+Theorem C14_other_conns_unaffected : forall t s q m a q' b,
+  wf_torrent t = true -> Proof.C14.Inv t s -> NoDup (map fst (d_peers s)) ->
+  step gfixed t s q m = Some a -> q' <> q -> find_peer (d_peers s) q' = Some b ->
+  find_peer (d_peers (a_st a)) q' = Some b \/
+  (find_peer (d_peers (a_st a)) q' = None /\ b_all b = true /\ all_have s = false /\ all_have (a_st a) = true).
+Proof. exact Proof.C14_frame.others_unaffected. Qed.
+Print Assumptions C14_other_conns_unaffected.
+
+Theorem C14_handshake_others_unaffected : forall g t s q h q',
+  q' <> q ->
+  match handshake g t s q h with
+  | HAccept a => find_peer (d_peers (a_st a)) q' = find_peer (d_peers s) q'
+  | _ => True          (* rejected: the state is the old state by definition of apply_event *)
+  end.
+Proof. exact Proof.C14_frame.handshake_others_unaffected. Qed.
+Print Assumptions C14_handshake_others_unaffected.
+
+Theorem C14_hangup_others_unaffected : forall s q a q',
+  hangup s q = Some a -> q' <> q ->
+  find_peer (d_peers (a_st a)) q' = find_peer (d_peers s) q' /\ d_have (a_st a) = d_have s.
+Proof. exact Proof.C14_frame.hangup_others_unaffected. Qed.
+Print Assumptions C14_hangup_others_unaffected.
+
+(* ---- "corrupt": a piece becomes complete only through a payload for exactly that piece — index in range,
+   offset 0, the piece's length, bytes with the piece sum — and nothing else in the piece table changes *)
+Theorem C14_pieces_only_by_valid_payload : forall t s q m a,
+  wf_torrent t = true -> Proof.C14.Inv t s -> step gfixed t s q m = Some a ->
+  d_have (a_st a) = d_have s \/ Proof.C14_frame.valid_write t m (d_have s) (d_have (a_st a)).
+Proof. exact Proof.C14_frame.have_only_by_valid_payload. Qed.
+Print Assumptions C14_pieces_only_by_valid_payload.
+
+(* ---- the code before the fixes: each guard removed on its own breaks the property (witnesses = driver seeds) *)
+Theorem C14_nil_body_refuted :
+  wf_torrent C14_refute.tA = true /\ inv C14_refute.tA (C14_refute.with_peer C14_refute.tA C14_refute.haveA) = true /\
+  step C14_refute.no_nilbody C14_refute.tA (C14_refute.with_peer C14_refute.tA C14_refute.haveA) 1 (C14_refute.msg 3 None None None None) = None /\
+  step C14_refute.no_nilbody C14_refute.tA (C14_refute.with_peer C14_refute.tA C14_refute.haveA) 1 (C14_refute.msg 1 None None None None) = None /\
+  step C14_refute.no_nilbody C14_refute.tA (C14_refute.with_peer C14_refute.tA C14_refute.haveA) 1 (C14_refute.msg 5 None None None None) = None /\
+  step C14_refute.no_nilbody C14_refute.tA (C14_refute.with_peer C14_refute.tA C14_refute.haveA) 1 (C14_refute.msg 2 None None None None) = None /\
+  step C14_refute.no_nilbody C14_refute.tO (C14_refute.with_peer C14_refute.tO C14_refute.haveO) 1 (C14_refute.msg 3 None None None None) = None.
+Proof. exact Proof.C14_refute.nil_body_refuted. Qed.
+Print Assumptions C14_nil_body_refuted.
+
+Theorem C14_negative_index_refuted :
+  step C14_refute.no_negidx C14_refute.tA (C14_refute.with_peer C14_refute.tA C14_refute.haveA) 1 (C14_refute.msg 3 None None (Some (-1)) None) = None /\
+  step C14_refute.no_negidx C14_refute.tA (C14_refute.with_peer C14_refute.tA C14_refute.haveA) 1 (C14_refute.msg 3 None None (Some (-5)) None) = None /\
+  step C14_refute.no_negidx C14_refute.tO (C14_refute.with_peer C14_refute.tO C14_refute.haveO) 1 (C14_refute.msg 3 None None (Some (-2147483648)) None) = None /\
+  step C14_refute.no_negidx C14_refute.tA (C14_refute.with_peer C14_refute.tA C14_refute.haveA) 1 (C14_refute.msg 1 (Some (-1, 0, 0)) None None None) = None /\
+  step C14_refute.no_negidx C14_refute.tO (C14_refute.with_peer C14_refute.tO C14_refute.haveO) 1 (C14_refute.msg 1 (Some (-1, 0, 0)) None None None) = None /\
+  step C14_refute.no_negidx C14_refute.tA (C14_refute.with_peer C14_refute.tA C14_refute.haveA) 1 (C14_refute.msg 2 None (Some (-1, 0, 0)) None None) = None.
+Proof. exact Proof.C14_refute.negative_index_refuted. Qed.
+Print Assumptions C14_negative_index_refuted.
+
+Theorem C14_payload_length_refuted :
+  step C14_refute.no_paylen C14_refute.tA (C14_refute.with_peer C14_refute.tA C14_refute.haveA) 1 (C14_refute.msg 2 None (Some (1, 0, -1)) None None) = None /\
+  (exists a, step C14_refute.no_paylen C14_refute.tA (C14_refute.with_peer C14_refute.tA C14_refute.haveA) 1
+               (mkm 16 true 2 None (Some (1, 0, 2147483647)) None None false false) = Some a /\
+             In (EAlloc 2147483647) (a_eff a) /\ eff_ok C14_refute.tA (EAlloc 2147483647) = false).
+Proof. exact Proof.C14_refute.payload_length_refuted. Qed.
+Print Assumptions C14_payload_length_refuted.
+
+Theorem C14_bitfield_prefix_refuted :
+  wf_hs (C14_refute.hs (Some (2 ^ 50, [], 0)) []) = true /\
+  (exists st es, handshake C14_refute.no_bfprefix C14_refute.tA (init C14_refute.tA C14_refute.haveA) 1 (C14_refute.hs (Some (2 ^ 50, [], 0)) []) = HReject st es /\
+                 In (EAlloc (2 ^ 47)) es /\ eff_ok C14_refute.tA (EAlloc (2 ^ 47)) = false) /\
+  (exists st es, handshake C14_refute.no_bfprefix C14_refute.tA (init C14_refute.tA C14_refute.haveA) 1
+                   (C14_refute.hs (Some (4, [0], 8)) [(true, Some (2 ^ 50, [], 0))]) = HReject st es /\
+                 In (EAlloc (2 ^ 47)) es).
+Proof. exact Proof.C14_refute.bitfield_prefix_refuted. Qed.
+Print Assumptions C14_bitfield_prefix_refuted.
+
+Theorem C14_bitfield_size_refuted :
+  wf_hs (C14_refute.hs (Some (5, [16], 8)) []) = true /\
+  handshake C14_refute.no_bfsize C14_refute.tA (init C14_refute.tA C14_refute.haveA) 1 (C14_refute.hs (Some (5, [16], 8)) []) = HPanic /\
+  handshake C14_refute.no_bfsize C14_refute.tA (init C14_refute.tA C14_refute.haveA) 1 (C14_refute.hs (Some (64, [18446744073709551615], 8)) []) = HPanic /\
+  handshake C14_refute.no_bfsize C14_refute.tA (init C14_refute.tA C14_refute.haveA) 1 (C14_refute.hs (Some (4, [1099511627776], 8)) []) = HPanic /\
+  handshake C14_refute.no_bfsize C14_refute.tO (init C14_refute.tO C14_refute.haveO) 1 (C14_refute.hs (Some (65, [0; 1], 16)) []) = HPanic.
+Proof. exact Proof.C14_refute.bitfield_size_refuted. Qed.
+Print Assumptions C14_bitfield_size_refuted.
+
+(* ---- non-vacuity: a reachable state with two peers; a history that is accepted, changes the state, completes
+   the torrent; the hypotheses of the theorems hold of it *)
+Example C14_nonvacuous_state :
+  let t := mkt Agent 4 8 29 in
+  let s := C14_refute.with_peer t [true; false; false; false] in
+  wf_torrent t = true /\ inv t s = true /\ d_peers s <> [] /\
+  forallb wf_event [EvHs 2 (C14_refute.hs (Some (4, [15], 8)) []);
+                    EvMsg 1 (C14_refute.msg 3 None None (Some 2) None);
+                    EvMsg 1 (mkm 20 true 2 None (Some (2, 0, 8)) None None true true);
+                    EvMsg 2 (C14_refute.msg 1 (Some (2, 0, 8)) None None None);
+                    EvMsg 1 (C14_refute.msg 3 None None (Some (-1)) None);
+                    EvHangup 1] = true.
+Proof. vm_compute. repeat split; try reflexivity. discriminate. Qed.
+
+Example C14_nonvacuous_history :
+  let t := mkt Agent 4 8 29 in
+  let s := C14_refute.with_peer t [true; false; false; false] in
+  exists s' es,
+    run_events gfixed t s [EvHs 2 (C14_refute.hs (Some (4, [15], 8)) []);
+                           EvMsg 1 (C14_refute.msg 3 None None (Some 2) None);
+                           EvMsg 1 (mkm 20 true 2 None (Some (2, 0, 8)) None None true true);
+                           EvMsg 2 (C14_refute.msg 1 (Some (2, 0, 8)) None None None);
+                           EvMsg 1 (C14_refute.msg 3 None None (Some (-1)) None);
+                           EvHangup 1] = Some (s', es) /\
+    d_have s' = [true; false; true; false] /\ map fst (d_peers s') = [2] /\
+    In (ESend 1 (RReq 2 8)) es /\ In (EFileWr 16 8) es /\ In (ESend 2 (RPay 2 8 true)) es /\ In (ESend 2 (RAnn 2)) es.
+Proof. vm_compute. do 2 eexists. split; [reflexivity|]. repeat split; try reflexivity; tauto. Qed.
